@@ -103,6 +103,15 @@ def strip(n):
             return n
 
 
+def plain_local(n):
+    """name of the local when n is exactly a local variable expression (no deref / field / index), else None"""
+    while n.get("k") == "block" and not n.get("stmts") and n.get("e") is not None:
+        n = n["e"]
+    if n.get("k") == "path" and n.get("res") == "local":
+        return n["name"]
+    return None
+
+
 def is_local(n, name=None):
     n = strip(n)
     if n.get("k") == "path" and n.get("res") == "local":
